@@ -5,6 +5,7 @@ package wsrpc
 // may be attempted or left behind afterwards.
 
 import (
+	"bytes"
 	"context"
 	"crypto/ed25519"
 	"crypto/tls"
@@ -896,6 +897,137 @@ func vC09Scenario(name string, seed uint64) string {
 			return "close-hangs/" + strings.Join(vParked(), ",")
 		}
 		return ""
+	case "large-replies-at-once":
+		// C01: eight calls in each direction whose handlers return at the same moment with replies of 3 MB each (all of the
+		// same length, each made of its own letter): every call gets its own reply, every byte of it
+		w, err := vC09Setup(r)
+		if err != nil || !w.ready() {
+			return "setup"
+		}
+		vWaitUntil(2*time.Second, func() bool { return w.ls.S.OpenConnections() == 1 })
+		const n, size = 8, 3 << 20
+		for _, dirn := range []string{"client-calls", "server-calls"} {
+			impl := w.ls.Impl
+			if dirn == "server-calls" {
+				impl = w.impl
+			}
+			impl.mu.Lock()
+			impl.hold = true
+			impl.mu.Unlock()
+			outs := make([]*message.Response, n)
+			errs := make([]error, n)
+			var wg sync.WaitGroup
+			for i := 0; i < n; i++ {
+				wg.Add(1)
+				go func(i int) {
+					defer wg.Done()
+					ctx, c := context.WithTimeout(context.Background(), 20*time.Second)
+					defer c()
+					outs[i] = &message.Response{}
+					in := vAppMsg(fmt.Sprint(dirn, i), bytes.Repeat([]byte{byte('a' + i)}, size), "")
+					if dirn == "client-calls" {
+						errs[i] = w.cc.Invoke(ctx, "Echo", in, outs[i])
+					} else {
+						errs[i] = w.ls.S.Invoke(peer.NewCallContext(ctx, w.ckey.Static()), "Echo", in, outs[i])
+					}
+				}(i)
+			}
+			if !vWaitUntil(15*time.Second, func() bool { return len(impl.peek()) >= n }) {
+				return "setup"
+			}
+			impl.take()
+			impl.mu.Lock()
+			impl.hold = false
+			for _, g := range impl.gate {
+				select {
+				case <-g:
+				default:
+					close(g)
+				}
+			}
+			impl.mu.Unlock()
+			wg.Wait()
+			for i := 0; i < n; i++ {
+				if errs[i] != nil {
+					return fmt.Sprintf("large-reply-lost/%s/call %d: %v", dirn, i, errs[i])
+				}
+				own := bytes.Count(outs[i].Payload, []byte{byte('a' + i)})
+				if outs[i].CallId != fmt.Sprint(dirn, i) || len(outs[i].Payload) != size || own != size {
+					return fmt.Sprintf("call-got-bytes-of-another-reply/%s/call %d: token %q, %d of %d bytes are its own", dirn, i, outs[i].CallId, own, size)
+				}
+			}
+		}
+		if !vClose(w.cc, 6*time.Second) {
+			return "close-hangs/" + strings.Join(vParked(), ",")
+		}
+		return ""
+	case "reconnect-under-traffic":
+		// C06: the session is lost again and again while the application uses the connection from several goroutines
+		// (calls, and registrations of its service): after every loss the client comes back to READY by itself
+		w, err := vC09Setup(r)
+		if err != nil || !w.ready() {
+			return "setup"
+		}
+		stop := make(chan struct{})
+		var wg sync.WaitGroup
+		for g := 0; g < 10; g++ {
+			wg.Add(1)
+			go func(g int) {
+				defer wg.Done()
+				for i := 0; ; i++ {
+					select {
+					case <-stop:
+						return
+					default:
+					}
+					ctx, c := context.WithTimeout(context.Background(), 100*time.Millisecond)
+					_ = w.cc.Invoke(ctx, "Echo", vAppMsg(fmt.Sprint("t", g, "-", i), nil, ""), &message.Response{})
+					c()
+				}
+			}(g)
+		}
+		for g := 0; g < 3; g++ {
+			wg.Add(1)
+			go func() {
+				defer wg.Done()
+				for {
+					select {
+					case <-stop:
+						return
+					default:
+					}
+					w.cc.RegisterService(vDesc(), w.impl)
+					time.Sleep(50 * time.Microsecond)
+				}
+			}()
+		}
+		fail := ""
+		for cut := 0; cut < 40 && fail == ""; cut++ {
+			time.Sleep(time.Duration(2+r.Intn(10)) * time.Millisecond)
+			dials := w.px.DialCount()
+			w.px.CutAll()
+			back := vWaitUntil(5*time.Second, func() bool { return w.px.DialCount() > dials && w.cc.GetState() == connectivity.Ready })
+			if !back {
+				fail = fmt.Sprintf("no-recovery-under-traffic/cut %d: state %s, dials %d -> %d/%s", cut, w.cc.GetState(), dials, w.px.DialCount(), strings.Join(vParked(), ","))
+			}
+		}
+		close(stop)
+		done := make(chan struct{})
+		go func() { wg.Wait(); close(done) }()
+		select {
+		case <-done:
+		case <-time.After(5 * time.Second):
+			if fail == "" {
+				fail = "calls-stuck-after-reconnects/" + strings.Join(vParked(), ",")
+			}
+		}
+		if fail != "" {
+			return fail
+		}
+		if !vClose(w.cc, 6*time.Second) {
+			return "close-hangs/" + strings.Join(vParked(), ",")
+		}
+		return ""
 	case "state-while-close-waits-for-a-handler":
 		// C08: Close is waiting for a handler which is still serving a peer request: the connection refuses calls already,
 		// so it must not report READY any more, and those who wait for a state change must have been woken
@@ -1050,12 +1182,12 @@ func TestVerifC08Closed(t *testing.T) {
 
 // C06: the session is lost in the gap between READY and the loop's wait for the loss
 func TestVerifC06Gap(t *testing.T) {
-	vC09Run(t, []string{"session-cut-before-the-loop-waits-for-it"}, "gap/", 61)
+	vC09Run(t, []string{"session-cut-before-the-loop-waits-for-it", "reconnect-under-traffic"}, "gap/", 61)
 }
 
 // C01 / C07: a peer which answers every call several times - each call still gets its own reply
 func TestVerifDupResponses(t *testing.T) {
-	vC09Run(t, []string{"peer-answers-each-call-several-times"}, "dup/", 17)
+	vC09Run(t, []string{"peer-answers-each-call-several-times", "large-replies-at-once"}, "dup/", 17)
 }
 
 // C05: a frame which cannot be decoded does not stop the requests which follow it from being answered
